@@ -109,6 +109,24 @@ let handle kind fs obs =
         let spec = (if Z.geq total (z_of_n w64) then Err EOverflow else
                     match sl_spec (n 1) (n_of_z total) (n 2) with Ok rg -> Ok { r_off = rg.r_off; r_len = n_of_z total } | e -> e) in
         (show_rr r, if c04 then None else Some (resR_eqb (parse_rr im) spec))
+      | "arrx" | "varrx" ->
+        (* element types whose size is not their alignment ([u16;3], [u32;3], [u8;5], [u64;3]): arrx:addr:size:align:len *)
+        let byva = p.(0) = "varrx" in
+        let r = rd_slice (if byva then rdv else sl) (n 1) (n 2) (n 3) (n 4) in
+        let total = Z.mul (Z.of_string p.(2)) (Z.of_string p.(4)) in
+        let spec = (if Z.geq total (z_of_n w64) then Some (Err EOverflow) else
+                    let pick = (if byva then rd_spec_opt (n 1) (n_of_z total) (n 3) else Some (sl_spec (n 1) (n_of_z total) (n 3))) in
+                    match pick with Some (Ok rg) -> Some (Ok { r_off = rg.r_off; r_len = n_of_z total }) | Some e -> Some e | None -> None) in
+        (match r with Ok _ -> tag "struct-array-ok" | _ -> ());
+        (show_rr r, if c04 then None else (match spec with Some sp -> Some (resR_eqb (parse_rr im) sp) | None -> None))
+      | "vcopy" ->
+        (* deref_copy / deref_into: the VA twins of derva_copy / derva_into *)
+        let size = int_of_string p.(2) in
+        let r1 = rd_copy rdv (n 1) (n 2) in
+        let s1 = (match r1 with Ok rg -> "ok:" ^ string_of_n (value rg.r_off size) | r -> show_rr r) in
+        let spec1 = (match rd_spec_opt (n 1) (n 2) (n_of_int 1) with
+                     | Some (Ok rg) -> Some ("ok:" ^ string_of_n (value rg.r_off size)) | Some r -> Some (show_rr r) | None -> None) in
+        (s1, if c04 then None else (match spec1 with Some sp -> Some (im = sp) | None -> None))
       | "sent" | "vsent" ->
         let byva = p.(0) = "vsent" in
         let r = rd_slice_s get (if byva then rdv else sl) (n 1) (n 2) (n 2) (n 3) in
